@@ -118,3 +118,23 @@ def fingerprint(v, depth=0):
     if t_.__name__ == 'ValueOrList':
         return (t_.__name__, id(v), v._is_val, fingerprint(v._inner, depth + 1))
     return (t_.__name__, id(v), repr(v))
+
+
+def plain_data(d, depth=0):
+    """Interchange data with scalar subclasses (a `class MyInt(int)` left as it is by into_data) reduced to the builtin types the reference model is defined on."""
+    import collections.abc
+    if depth > 30:
+        return d
+    if isinstance(d, bool) or d is None:
+        return d
+    for base in (int, float, complex, str, bytes):
+        if isinstance(d, base):
+            return d if type(d) is base else base(d)
+    if isinstance(d, collections.abc.Mapping):
+        try:
+            return {plain_data(k, depth + 1): plain_data(v, depth + 1) for k, v in d.items()}
+        except TypeError:
+            return d
+    if isinstance(d, (list, tuple)):
+        return type(d)(plain_data(x, depth + 1) for x in d) if type(d) in (list, tuple) else [plain_data(x, depth + 1) for x in d]
+    return d
